@@ -1,5 +1,5 @@
 (* Props/C07.v — output header always matches output records and follows the naming rules. *)
-From RBQL Require Import Base Value Expr Writers Join Agg Engine Spec Header Header_Proofs Width_Proofs.
+From RBQL Require Import Base Value Like Expr Writers Join Agg Engine Spec Header Header_Proofs Width_Proofs JoinWidth_Proofs.
 
 (* width: the header of a select list (with or without DISTINCT COUNT's leading count column) has exactly as many
    names as the select list has output columns over records of |ih| (and |jh|) fields ... *)
@@ -20,6 +20,82 @@ Theorem C07_header_matches_rows :
     Forall (fun kr => length (snd kr) = length h) rows.
 Proof. exact header_matches_rows. Qed.
 Print Assumptions C07_header_matches_rows.
+
+(* LEFT JOIN (after fix c71773a, D27): headers on both tables, a rectangular input table, a rectangular join table whose
+   records are as wide as its header - INCLUDING the join table with a header and NO records: every record a non-aggregate
+   SELECT offers to its writer has exactly as many fields as the output header has names, for matched and for unmatched
+   A records alike.  [j_bhdr js = Some (length jh)] says that the query was resolved against that join header; [his] is
+   the header shape of the select list, column for column; [all_offers] is what the run writes (C04_downstream).
+   Before the fix the faithful model made this false for B = [] (null record of 0 fields, header of |jh| names). *)
+Theorem C07_left_join_width :
+  forall (expr : Type) (eval : env -> expr -> res val) (q : query expr) js items his (ih jh : list str) h A B jm offs,
+    q_kind q = QSelect items -> q_join q = Some js -> j_kind js = JLeft -> j_bhdr js = Some (length jh) ->
+    Forall (fun a => length a = length ih) A -> Forall (fun f => length f = length jh) B ->
+    map (hitem_width (length ih) (length jh)) his = map (item_width expr (length ih) (length jh)) items ->
+    output_header (Some ih) (Some jh) (HQSelect his false) = HSome h ->
+    join_map_of expr q B = Some jm ->
+    all_offers expr eval q jm 0 A = Ok offs ->
+    Forall (fun kr => length (snd kr) = length h) offs.
+Proof. exact left_join_header_matches_rows. Qed.
+Print Assumptions C07_left_join_width.
+
+(* ... in particular `select b.*`: the output header is the join header, and every record has one field per name of it *)
+Theorem C07_left_join_star_width :
+  forall (expr : Type) (eval : env -> expr -> res val) (q : query expr) js (ih jh : list str) A B jm offs,
+    q_kind q = QSelect [IStarB] -> q_join q = Some js -> j_kind js = JLeft -> j_bhdr js = Some (length jh) ->
+    Forall (fun a => length a = length ih) A -> Forall (fun f => length f = length jh) B ->
+    join_map_of expr q B = Some jm ->
+    all_offers expr eval q jm 0 A = Ok offs ->
+    output_header (Some ih) (Some jh) (HQSelect [HStarB] false) = HSome jh
+    /\ Forall (fun kr => length (snd kr) = length jh) offs.
+Proof. exact left_join_star_b_width. Qed.
+Print Assumptions C07_left_join_star_width.
+
+(* every A record is paired with at least one b-side, each of the join header's width (so the offers above are not
+   trivially few: an unmatched record contributes its null record) *)
+Theorem C07_left_join_sides :
+  forall (expr : Type) (q : query expr) js B jm (jh : list str) nr a bs,
+    q_join q = Some js -> j_kind js = JLeft -> j_bhdr js = Some (length jh) ->
+    Forall (fun f => length f = length jh) B ->
+    join_map_of expr q B = Some jm ->
+    matches_of expr q jm nr a = Ok bs ->
+    bs <> [] /\ Forall (fun b => b_width b = length jh) bs.
+Proof. exact left_join_matches_width. Qed.
+Print Assumptions C07_left_join_sides.
+
+(* non-vacuity: `select a1, b.* left join b on a1 == b1` over a join table with the header n, k, m and NO records (the input
+   of finding D27) and over one with a matching record: the hypotheses hold, one row per A record, 1 + 3 fields each;
+   with the join header left out of the join clause (the behaviour before the fix) the unmatched row has 1 field *)
+Definition exq (jh : option nat) : query Expr.expr :=
+  {| q_kind := QSelect [IExpr (EFld TA 0); IStarB]; q_where := None;
+     q_join := Some {| j_kind := JLeft; j_lhs := [LFld 0]; j_rhs := [RFld 0]; j_bhdr := jh |};
+     q_group := None; q_order := None; q_distinct := DNo; q_top := None |}.
+Definition exA : list rec := [[AStr [120%N]]; [AStr [121%N]]].
+Definition ex_ih : list str := [[120%N]].
+Definition ex_jh : list str := [[110%N]; [107%N]; [109%N]].
+Example C07_left_join_nonvacuous :
+  output_header (Some ex_ih) (Some ex_jh) (HQSelect [HField TA 0; HStarB] false) = HSome ([120%N] :: ex_jh)
+  /\ Forall (fun a => length a = length ex_ih) exA
+  /\ join_map_of _ (exq (Some 3)) [] = Some (Some {| m_buckets := []; m_maxlen := 3 |})
+  /\ all_offers _ (eval Py) (exq (Some 3)) (Some {| m_buckets := []; m_maxlen := 3 |}) 0 exA
+     = Ok [([], [VA (AStr [120%N]); VA ANone; VA ANone; VA ANone]); ([], [VA (AStr [121%N]); VA ANone; VA ANone; VA ANone])]
+  /\ (let B := [[AStr [121%N]; AStr [112%N]; AStr [113%N]]] in
+      Forall (fun f => length f = length ex_jh) B
+      /\ match join_map_of _ (exq (Some 3)) B with
+         | Some jm => all_offers _ (eval Py) (exq (Some 3)) jm 0 exA
+                      = Ok [([], [VA (AStr [120%N]); VA ANone; VA ANone; VA ANone]);
+                            ([], [VA (AStr [121%N]); VA (AStr [121%N]); VA (AStr [112%N]); VA (AStr [113%N])])]
+         | None => False
+         end)
+  /\ join_map_of _ (exq None) [] = Some (Some {| m_buckets := []; m_maxlen := 0 |})
+  /\ all_offers _ (eval Py) (exq None) (Some {| m_buckets := []; m_maxlen := 0 |}) 0 exA
+     = Ok [([], [VA (AStr [120%N])]); ([], [VA (AStr [121%N])])].
+Proof.
+  split; [vm_compute; reflexivity|]. split; [repeat constructor|]. split; [vm_compute; reflexivity|].
+  split; [vm_compute; reflexivity|]. split; [split; [repeat constructor | vm_compute; reflexivity]|].
+  split; vm_compute; reflexivity.
+Qed.
+Print Assumptions C07_left_join_nonvacuous.
 
 Theorem C07_width_except : forall ih jh idxs dc h (a : list ch),
   output_header (Some ih) jh (HQExcept idxs dc) = HSome h -> length a = length ih ->
